@@ -1,7 +1,7 @@
 #!/bin/sh
 export GOFLAGS=-mod=mod GOPROXY=off GOSUMDB=off GOTOOLCHAIN=local
 for k in m1 m2 m3; do
-  S=$1/C20-n$k
+  S=$1/C20-q$k
   for mode in head patched; do
     W=$(mktemp -d /tmp/vc20.XXXXXX); rsync -a --exclude .git /repo/tools/god/util/ $W/src/
     [ $mode = patched ] && (cd /repo && git diff --no-index /dev/null /dev/null >/dev/null 2>&1; true) && (mkdir -p $W/tree/tools/god && rsync -a /repo/tools/god/util $W/tree/tools/god/ && cd $W/tree && patch -p1 -s < $S/patch.diff && rsync -a $W/tree/tools/god/util/ $W/src/)
